@@ -483,6 +483,25 @@ pub mod prelude {
                     ==> from_str_spec::<u16>(s) is Ok,
     {}
 
+    // ---- std Display of addresses and ports (core::fmt is outside Verus): what `to_string` prints.
+    // Assumed round-trip facts of std: Display then FromStr is the identity, with bounded lengths.
+    pub uninterp spec fn display_ipv4(a: Ipv4Addr) -> Seq<u8>;
+    pub uninterp spec fn display_ipv6(a: Ipv6Addr) -> Seq<u8>;
+    pub uninterp spec fn display_u16(x: u16) -> Seq<u8>;
+    #[verifier::external_body]
+    pub broadcast proof fn axiom_display_ipv4(a: Ipv4Addr)
+        ensures from_str_spec::<Ipv4Addr>(#[trigger] display_ipv4(a)) == Ok::<Ipv4Addr, std::net::AddrParseError>(a), display_ipv4(a).len() <= 15
+    {}
+    #[verifier::external_body]
+    pub broadcast proof fn axiom_display_ipv6(a: Ipv6Addr)
+        ensures from_str_spec::<Ipv6Addr>(#[trigger] display_ipv6(a)) == Ok::<Ipv6Addr, std::net::AddrParseError>(a), display_ipv6(a).len() <= 39
+    {}
+    #[verifier::external_body]
+    pub broadcast proof fn axiom_display_u16(x: u16)
+        ensures 1 <= (#[trigger] display_u16(x)).len() <= 5, all_digits(display_u16(x)), dec_value(display_u16(x)) == x,
+            display_u16(x).len() == 1 || display_u16(x)[0] != 48u8
+    {}
+
     // Option::filter with a specified predicate
     pub assume_specification<T, P: FnOnce(&T) -> bool>[ Option::<T>::filter ](o: Option<T>, p: P) -> (r: Option<T>)
         requires o matches Some(x) ==> p.requires((&x,))
@@ -558,6 +577,9 @@ pub mod prelude {
     }
     pub broadcast group prelude_parse_axioms {
         axiom_ipv4_text_no_sep, axiom_ipv6_text_no_sep, axiom_u16_text,
+    }
+    pub broadcast group prelude_display_axioms {
+        axiom_display_ipv4, axiom_display_ipv6, axiom_display_u16,
     }
     pub broadcast group prelude_utf8_axioms {
         axiom_boundary_ascii, axiom_boundary_after_ascii, axiom_boundary_ends, axiom_cow_str_valid, axiom_str_valid_utf8,
